@@ -1115,8 +1115,20 @@ def chunk_bad(r, cfg, cid):
 # -----------------------------------------------------------------------------------------------------------------
 #  chunk execution
 # -----------------------------------------------------------------------------------------------------------------
+def _cfg(tier):
+    cfg = dict(TIERS[tier])
+    try:
+        sc = float(os.environ.get('XV_C09_SCALE', '1'))      # development only: shrink/grow the counts of a tier
+    except ValueError:
+        sc = 1.0
+    if sc != 1.0:
+        for k in ('nb', 'nr', 'nc', 'nl', 'nu', 'nm'):
+            cfg[k] = max(1, int(cfg[k] * sc))
+    return cfg
+
+
 def plan(tier, seed):
-    cfg = TIERS[tier]
+    cfg = _cfg(tier)
     chunks = []
     names = [n for n in D.BUILTINS if n != 'NOTATION']
     for n in names:
@@ -1130,7 +1142,7 @@ def plan(tier, seed):
 
 
 def build_chunk(tier, seed, ch):
-    cfg = TIERS[tier]
+    cfg = _cfg(tier)
     PCRASH[0] = cfg['pcrash']
     kind, a, n = ch
     cases = []
@@ -1184,11 +1196,21 @@ def run_isolated(binary, cases, F, tag='c09'):
                 recs = core.run_shard(binary, todo, tag=tag, per_case_timeout=60.0)
                 break
             except RuntimeError as e:
-                # the shared build cache may be relinking the library at this very moment (another check rebuilding after a
-                # commit in /repo): the driver cannot start; wait and try again
-                if 'no progress' not in str(e) or attempt == 7:
+                msg = str(e)
+                if 'no progress' not in msg:
                     raise
-                time.sleep(4 + 3 * attempt)
+                if re.search(r'file too short|error while loading shared libraries|cannot open shared object|Text file busy', msg):
+                    # the shared build cache may be relinking the library at this very moment (another check rebuilding
+                    # after a commit in /repo): the driver cannot start; wait and try again
+                    if attempt == 7:
+                        raise
+                    time.sleep(4 + 3 * attempt)
+                    continue
+                # the driver starts but dies before the first case: the library fails in XMLPlatformUtils::Initialize (e.g. a
+                # built-in datatype validator cannot be constructed -> panic): that is a finding, not a harness problem
+                F.viol.append(('C09:library-fails-at-initialisation', 'the driver process dies before the first case (XMLPlatformUtils::Initialize / built-in datatype registry)',
+                               {'expected': 'driver starts', 'observed': msg[-1500:], 'case': todo[0].to_json()}))
+                return out
         again = []
         for c in todo:
             rec = recs.get(c.id)
@@ -1303,7 +1325,11 @@ def run(tier):
         ck.inconclusive.append('built-in types never exercised: %s' % missing)
     if not cov.get('route3'):
         ck.inconclusive.append('route 3 (in-parse) never exercised')
-    if tot.triples < (20000 if tier == 'quick' else 200000):
+    try:
+        sc = min(1.0, float(os.environ.get('XV_C09_SCALE', '1')))
+    except ValueError:
+        sc = 1.0
+    if tot.triples < (20000 if tier == 'quick' else 200000) * sc:
         ck.inconclusive.append('only %d order triples' % tot.triples)
     if sum(tot.skips.values()) > 0.25 * max(1, tot.evals):
         ck.inconclusive.append('too many skipped cases: %d of %d' % (sum(tot.skips.values()), tot.evals))
